@@ -188,7 +188,9 @@ pub fn run(ctx: &Ctx, r: &mut Report) {
 	}
 	let miri = ctx.arg.as_deref() == Some("miri");
 	// exhaustive: all sequences of length L over two 4-symbol alphabets x every length 1..=6
-	let alph: [[f64; 4]; 3] = [[-0.0, 0.0, 1.0, 2.0], [0.0, 1.0, 2.0, 3.0], [-1.0, -0.0, 0.0, 1.0]];
+	// the fourth alphabet lives in the subnormal range (odd multiples of the smallest positive value: halving them is inexact)
+	let tiny = V::from_bits(1) as f64;
+	let alph: [[f64; 4]; 4] = [[-0.0, 0.0, 1.0, 2.0], [0.0, 1.0, 2.0, 3.0], [-1.0, -0.0, 0.0, 1.0], [tiny, 3.0 * tiny, -tiny, 2.0 * tiny]];
 	let l = if miri { 5 } else { ctx.pick(9, 11) };
 	let mut k = 0u64;
 	for (ai, a) in alph.iter().enumerate() {
@@ -197,7 +199,7 @@ pub fn run(ctx: &Ctx, r: &mut Report) {
 			if !ctx.mine(k) {
 				return;
 			}
-			if miri && k % 16 != ctx.seed % 16 {
+			if miri && k % 22 != ctx.seed % 22 {
 				return;
 			}
 			let xs: Vec<f64> = idx.iter().map(|&i| a[i]).collect();
@@ -205,7 +207,7 @@ pub fn run(ctx: &Ctx, r: &mut Report) {
 			check_stream(n, &xs, &format!("exhaustive-alphabet{ai}"), true, r);
 		});
 	}
-	r.cell(&format!("exhaustive:3x4^{l}"));
+	r.cell(&format!("exhaustive:4x4^{l}"));
 	if miri {
 		return;
 	}
@@ -236,7 +238,16 @@ pub fn run(ctx: &Ctx, r: &mut Report) {
 					}
 				}
 			}
-			check_stream(n, &xs, gen::VALUE_CLASSES[class], false, r);
+			if (n + j) % 5 == 0 {
+				// small integers times the smallest positive value: a stream in the subnormal range
+				for x in xs.iter_mut() {
+					*x = ((*x * 4.0).round() % 64.0) * tiny;
+				}
+				check_stream(n, &xs, "subnormal-range", false, r);
+				r.cell("class:subnormal-range");
+			} else {
+				check_stream(n, &xs, gen::VALUE_CLASSES[class], false, r);
+			}
 			r.cell(&format!("length:{n}"));
 		}
 	}
